@@ -1424,10 +1424,10 @@ static uint32_t peg_compile1(Builder *b, Janet peg) {
     /* The final rule to return */
     uint32_t rule = janet_v_count(b->bytecode);
 
-    /* Add to cache. Do not cache structs, as we don't yet know
+    /* Add to cache. Do not cache structs or tables, as we don't yet know
      * what rule they will return! We can just as effectively cache
-     * the structs main rule. */
-    if (!janet_checktype(peg, JANET_STRUCT)) {
+     * the grammar's main rule. */
+    if (!janet_checktype(peg, JANET_STRUCT) && !janet_checktype(peg, JANET_TABLE)) {
         JanetTable *which_grammar = grammar;
         /* If we are a primitive pattern, add to the global cache (root grammar table) */
         if (!janet_checktype(peg, JANET_TUPLE)) {
@@ -1470,8 +1470,15 @@ static uint32_t peg_compile1(Builder *b, Janet peg) {
             break;
         }
         case JANET_TABLE: {
-            /* Build grammar table */
-            JanetTable *new_grammar = janet_table_clone(janet_unwrap_table(peg));
+            /* Build grammar table. Only keyword keys are rules: the table also
+             * serves as the cache from patterns to rule indices. */
+            JanetTable *user_grammar = janet_unwrap_table(peg);
+            JanetTable *new_grammar = janet_table(2 * user_grammar->capacity);
+            for (int32_t i = 0; i < user_grammar->capacity; i++) {
+                if (janet_checktype(user_grammar->data[i].key, JANET_KEYWORD)) {
+                    janet_table_put(new_grammar, user_grammar->data[i].key, user_grammar->data[i].value);
+                }
+            }
             new_grammar->proto = grammar;
             b->grammar = grammar = new_grammar;
             /* Run the main rule */
